@@ -10,7 +10,7 @@ CONSTANTS
   FnFilter = "all"
   Shapes = {"plain"}
   MaxSess = 0
-  FixProtoCache = FALSE
+  FixProtoCache = TRUE
   Bug = "none"
 INVARIANT EmitLib
 CHECK_DEADLOCK FALSE
